@@ -1,7 +1,8 @@
 (* Proofs for C18 (CSV export / import).  Model: Model/Csv.v, oracle-side
    definitions: Model/CsvOk.v. *)
 From Coq Require Import ZArith NArith List Bool Lia Arith.
-From FV.Model Require Import Bytes Bson Metrics Codec Collector Wf RoundTrip Views Csv CsvOk.
+From FV.Model Require Import Bytes Bson Metrics Codec Collector Wf RoundTrip CollectorOk Views Csv CsvOk.
+From FV.Proofs Require Import CollectorSizes.
 Import ListNotations.
 
 (* ================================================================== integers *)
@@ -735,3 +736,243 @@ Proof.
 Qed.
 
 End Convert.
+
+(* ================================================================== statements as used in Props/C18.v *)
+Lemma flat_map_concat {A B} (f : A -> list B) (gs : list (list A)) :
+  flat_map (fun g => flat_map f g) gs = flat_map f (concat gs).
+Proof.
+  induction gs as [|g gs IH]; [reflexivity|]. cbn [flat_map concat]. rewrite flat_map_app, IH. reflexivity.
+Qed.
+
+Lemma write_all : forall c cs n,
+  n <> O -> Forall (fun c' => nmetrics c' = n) (c :: cs) ->
+  write_csv (c :: cs) = (render_records (field_names c :: flat_map chunk_records (c :: cs)), false) /\
+  (forall c' i, record_of c' i =
+                map (fun tv => cell (fst tv) (snd tv)) (combine (chunk_types c') (sample_row c' i))) /\
+  (forall t v, t <> MDate -> cell t v = render_int v).
+Proof.
+  intros c cs n Hn Hc. split; [exact (write_const c cs n Hn Hc)|].
+  split; [exact record_of_cells|exact cell_int].
+Qed.
+
+Lemma dump_all : forall cs,
+  Forall (fun c => nmetrics c <> O) cs ->
+  dump_csv cs = map file_of (group_by_count cs) /\
+  concat (group_by_count cs) = cs /\
+  Forall (fun g => g <> [] /\ Forall (fun c => nmetrics c = nmetrics (hd (mkChunk [] 0 None None []) g)) g)
+         (group_by_count cs) /\
+  adjacent_differ (group_by_count cs) /\
+  flat_map (fun g => flat_map chunk_records g) (group_by_count cs) = flat_map chunk_records cs.
+Proof.
+  intros cs Hnz. destruct (gbc_spec cs) as [H1 [H2 H3]].
+  split; [exact (dump_files cs Hnz)|]. split; [exact H1|]. split; [exact H2|]. split; [exact H3|].
+  rewrite flat_map_concat, H1. reflexivity.
+Qed.
+
+Lemma roundtrip_all : forall c cs n,
+  n <> O -> Forall (fun c' => nmetrics c' = n) (c :: cs) ->
+  Forall (fun c' => has_date c' = false) (c :: cs) ->
+  record_ok (field_names c) = true ->
+  Forall (Forall (fun z => in_i64 z = true)) (int_rows (c :: cs)) ->
+  snd (write_csv (c :: cs)) = false /\
+  cv_docs (fst (write_csv (c :: cs))) = (table_docs (field_names c) (int_rows (c :: cs)), CvOk).
+Proof.
+  intros c cs n Hn Hc Hd Hk Hv. split.
+  - rewrite (write_const c cs n Hn Hc). reflexivity.
+  - exact (roundtrip_docs c cs n Hn Hc Hd Hk Hv).
+Qed.
+
+(* ================================================================== composition with the FTDC codec (C08) *)
+Section Compose.
+Variable deflate : bytes -> bytes.
+Variable inflate : bytes -> option bytes.
+Hypothesis inflate_deflate : forall p, inflate (deflate p) = Some p.
+
+Definition idoc (ks : list bytes) (zs : list Z) : doc := combine ks (map VInt64 zs).
+
+Lemma idoc_flatten : forall ks zs, flatten_doc (idoc ks zs) = map (fun kz => (MInt64, snd kz)) (combine ks zs).
+Proof.
+  induction ks as [|k ks IH]; intros zs; [reflexivity|]. destruct zs as [|z zs]; [reflexivity|].
+  unfold idoc in *. cbn [map combine flatten_doc flatten app snd]. rewrite IH. reflexivity.
+Qed.
+
+Lemma idoc_types : forall ks zs, length zs = length ks ->
+  map fst (flatten_doc (idoc ks zs)) = repeat MInt64 (length ks).
+Proof.
+  intros ks zs Hl. rewrite idoc_flatten, map_map. cbn [fst].
+  revert zs Hl. induction ks as [|k ks IH]; intros zs Hl; [reflexivity|].
+  destruct zs as [|z zs]; [discriminate|]. cbn [combine map length repeat]. rewrite IH by (cbn [length] in Hl; lia). reflexivity.
+Qed.
+
+Lemma idoc_skeleton : forall ks zs, length zs = length ks ->
+  skeleton_doc (idoc ks zs) = combine ks (repeat (VInt64 0) (length ks)).
+Proof.
+  induction ks as [|k ks IH]; intros zs Hl; [reflexivity|].
+  destruct zs as [|z zs]; [discriminate|]. unfold idoc in *.
+  cbn [map combine skeleton_doc skeleton zero_leaf length repeat]. rewrite IH by (cbn [length] in Hl; lia). reflexivity.
+Qed.
+
+Lemma idoc_strip : forall ks zs, strip_doc (idoc ks zs) = idoc ks zs.
+Proof.
+  induction ks as [|k ks IH]; intros zs; [reflexivity|]. destruct zs as [|z zs]; [reflexivity|].
+  unfold idoc in *. cbn [map combine strip_doc strip]. rewrite IH. reflexivity.
+Qed.
+
+Lemma idoc_ok : forall ks zs, Forall (fun k => key_ok k = true) ks -> Forall (fun z => in_i64 z = true) zs ->
+  doc_ok (idoc ks zs) = true /\ doc_leaves_ok (idoc ks zs) = true /\ doc_has_ts_seconds (idoc ks zs) = false.
+Proof.
+  induction ks as [|k ks IH]; intros zs Hk Hz; [repeat split|]. destruct zs as [|z zs]; [repeat split|].
+  inversion Hk as [|? ? Hk1 Hk2]; subst. inversion Hz as [|? ? Hz1 Hz2]; subst.
+  destruct (IH zs Hk2 Hz2) as [A [B C]]. unfold idoc in *.
+  cbn [map combine doc_ok value_ok doc_leaves_ok leaves_ok doc_has_ts_seconds has_ts_seconds].
+  rewrite Hk1, Hz1, A, B, C. repeat split.
+Qed.
+
+Lemma table_docs_ok : forall ks rows,
+  Forall (fun k => key_ok k = true) ks ->
+  Forall (fun r => length r = length ks) rows ->
+  Forall (Forall (fun z => in_i64 z = true)) rows ->
+  Forall (fun d => small (enc_doc d)) (table_docs ks rows) ->
+  (N.of_nat (length ks) < 2 ^ 32)%N ->
+  docs_ok KSDyn (table_docs ks rows).
+Proof.
+  intros ks rows Hk Hl Hv Hs Hn.
+  assert (forall d, In d (table_docs ks rows) -> exists zs, d = idoc ks zs /\ length zs = length ks /\
+                                                   Forall (fun z => in_i64 z = true) zs) as Hshape.
+  { intros d Hin. unfold table_docs in Hin. apply in_map_iff in Hin. destruct Hin as [zs [Hd Hin]].
+    exists zs. rewrite Forall_forall in Hl, Hv. split; [symmetry; exact Hd|]. split; [apply Hl|apply Hv]; exact Hin. }
+  split; [|split].
+  - apply Forall_forall. intros d Hin. destruct (Hshape d Hin) as [zs [Hd [Hlen Hz]]].
+    destruct (idoc_ok ks zs Hk Hz) as [A [B C]]. subst d.
+    split; [exact A|]. split; [exact B|]. split; [rewrite Forall_forall in Hs; apply Hs; exact Hin|].
+    split; [exact C|]. rewrite idoc_flatten, map_length, combine_length, Hlen, Nat.min_id. exact Hn.
+  - intros a b Ha Hb _ _. destruct (Hshape a Ha) as [za [-> [Hla _]]]. destruct (Hshape b Hb) as [zb [-> [Hlb _]]].
+    rewrite !idoc_skeleton by assumption. reflexivity.
+  - intros a b Ha Hb _. destruct (Hshape a Ha) as [za [-> [Hla _]]]. destruct (Hshape b Hb) as [zb [-> [Hlb _]]].
+    rewrite !idoc_types by assumption. reflexivity.
+Qed.
+
+Lemma table_docs_strip : forall ks rows, map strip_doc (table_docs ks rows) = table_docs ks rows.
+Proof.
+  intros. unfold table_docs. rewrite map_map. apply map_ext. intro zs. apply idoc_strip.
+Qed.
+
+(* ---- the model's ConvertFromCSV feeds and flushes exactly like [emit] for KSDyn ---- *)
+Lemma run_app : forall a b st,
+  run deflate st (a ++ b) =
+  let '(st1, o1) := run deflate st a in let '(st2, o2) := run deflate st1 b in (st2, o1 ++ o2).
+Proof.
+  induction a as [|x a IH]; intros b st.
+  - cbn [app run]. destruct (run deflate st b). reflexivity.
+  - cbn [app run]. destruct (step deflate st x) as [st' ob]. rewrite IH.
+    destruct (run deflate st' a) as [st1 o1]. destruct (run deflate st1 b) as [st2 o2]. reflexivity.
+Qed.
+
+Lemma feed_run : forall docs nows c w st obs,
+  length nows = length docs ->
+  run deflate (CSDyn c, w) (add_ops docs nows) = (st, obs) ->
+  obs = map (fun _ => BAdd ROk) docs ->
+  exists c' w', st = (CSDyn c', w') /\ cv_feed deflate c w docs nows = (c', w', true).
+Proof.
+  induction docs as [|d docs IH]; intros nows c w st obs Hl Hrun Hobs.
+  - destruct nows; [|discriminate]. cbn in Hrun. injection Hrun as Hst Ho. exists c, w. split; [symmetry; exact Hst|reflexivity].
+  - destruct nows as [|t nows]; [discriminate|]. unfold add_ops in Hrun. cbn [combine map fst snd run step c_add] in Hrun.
+    cbn [cv_feed hd tl].
+    destruct (sd_add deflate c w d t) as [[c1 w1] r] eqn:Ea.
+    fold (add_ops docs nows) in Hrun.
+    destruct (run deflate (CSDyn c1, w1) (add_ops docs nows)) as [st2 o2] eqn:Er.
+    injection Hrun as Hst Ho. rewrite <- Ho in Hobs. cbn [map] in Hobs. injection Hobs as Hr Ho2.
+    rewrite Hr. rewrite <- Hst.
+    apply (IH nows c1 w1 st2 o2); [cbn [length] in Hl; lia|exact Er|exact Ho2].
+Qed.
+
+Lemma convert_is_emit : forall t docs bucket nows,
+  cv_docs t = (docs, CvOk) -> length nows = length docs ->
+  snd (emit deflate KSDyn bucket docs nows) = map (fun _ => BAdd ROk) docs ++ [BFlush true] ->
+  convert_from_csv deflate t bucket nows [] = (emitted (snd (fst (emit deflate KSDyn bucket docs nows))), false).
+Proof.
+  intros t docs bucket nows Hcv Hl Hobs. unfold convert_from_csv. rewrite Hcv.
+  unfold emit in *. rewrite run_app in Hobs |- *. cbn [new_coll] in Hobs |- *.
+  destruct (run deflate (CSDyn (mkSdcoll None 0 (mkScoll bucket 0 (IB (bc_new bucket)))), mkWriter [] [] false)
+                (add_ops docs nows)) as [st1 o1] eqn:Er.
+  destruct (run deflate st1 [OFlush]) as [st2 o2] eqn:Ef. cbn [snd fst] in Hobs |- *.
+  cbn [run] in Ef. destruct (step deflate st1 OFlush) as [st3 ob] eqn:Es. inversion Ef; subst. clear Ef.
+  apply app_inj_tail in Hobs. destruct Hobs as [Ho1 _].
+  destruct (feed_run docs nows _ _ st1 o1 Hl Er Ho1) as [c' [w' [Hst Hfeed]]]. subst st1.
+  rewrite Hfeed. cbn [step c_flush] in Es.
+  destruct (sd_flush deflate c' w') as [[c2 w2] ok] eqn:Efl. inversion Es; subst. reflexivity.
+Qed.
+
+(* the round trip through the real pipeline: WriteCSV, ConvertFromCSV into a
+   writer that does not fail, then the FTDC reader *)
+Theorem roundtrip_reread : forall c cs n bucket nows,
+  n <> O -> Forall (fun c' => nmetrics c' = n) (c :: cs) ->
+  Forall (fun c' => has_date c' = false) (c :: cs) ->
+  record_ok (field_names c) = true ->
+  Forall (Forall (fun z => in_i64 z = true)) (int_rows (c :: cs)) ->
+  Forall (fun k => key_ok k = true) (field_names c) ->
+  (N.of_nat n < 2 ^ 32)%N ->
+  Forall (fun d => small (enc_doc d)) (table_docs (field_names c) (int_rows (c :: cs))) ->
+  (1 <= bucket < 2 ^ 31)%Z -> length nows = length (int_rows (c :: cs)) ->
+  exists out d,
+    convert_from_csv deflate (fst (write_csv (c :: cs))) bucket nows [] = (out, false) /\
+    decode_ftdc inflate None out = Some d /\
+    docs_eqb (dc_docs d) (table_docs (field_names c) (int_rows (c :: cs))) = true /\
+    dc_sizes d = expected_sizes bucket (table_docs (field_names c) (int_rows (c :: cs))).
+Proof.
+  intros c cs n bucket nows Hn Hc Hd Hk Hv Hkeys Hn32 Hsmall Hb Hl.
+  pose proof (roundtrip_docs c cs n Hn Hc Hd Hk Hv) as Hcv.
+  set (ks := field_names c) in *. set (rows := int_rows (c :: cs)) in *.
+  assert (length ks = n) as Hkl.
+  { unfold ks, field_names. rewrite map_length. inversion Hc; subst. reflexivity. }
+  assert (docs_ok KSDyn (table_docs ks rows)) as Hok.
+  { apply table_docs_ok; try assumption.
+    - rewrite Hkl. apply int_rows_lengths. exact Hc.
+    - rewrite Hkl. exact Hn32. }
+  assert (length nows = length (table_docs ks rows)) as Hl'.
+  { unfold table_docs. rewrite map_length. exact Hl. }
+  destruct (c08_dynamic deflate inflate inflate_deflate KSDyn bucket (table_docs ks rows) nows
+              (or_intror eq_refl) Hb Hl' Hok) as [Hobs [d [Hdec Hc08]]].
+  exists (emitted (snd (fst (emit deflate KSDyn bucket (table_docs ks rows) nows)))), d.
+  split; [apply convert_is_emit; assumption|]. split; [exact Hdec|].
+  unfold c08_ok in Hc08. apply andb_true_iff in Hc08. destruct Hc08 as [Hc08 Hsz].
+  apply andb_true_iff in Hc08. destruct Hc08 as [_ Hdocs]. rewrite table_docs_strip in Hdocs.
+  split; [exact Hdocs|].
+  destruct (list_eq_dec Z.eq_dec (dc_sizes d) (expected_sizes bucket (table_docs ks rows))) as [E|E]; [exact E|discriminate].
+Qed.
+
+End Compose.
+
+(* ================================================================== non-vacuity *)
+Definition ex_metric (k : bytes) (t : mtype) : metric := mkMetric [] k t 0.
+Definition ex_cA : chunk :=   (* keys  a,b  and  q QUOTE LF  ; two samples with extreme values *)
+  mkChunk [(ex_metric [97; 44; 98]%N MInt64, [1; -2]%Z); (ex_metric [113; 34; 10]%N MDouble, [2 ^ 63 - 1; - 2 ^ 63]%Z)] 2 None None [].
+Definition ex_cB : chunk :=   (* same count, keys " lead" and "" *)
+  mkChunk [(ex_metric [32; 108]%N MBool, [1]%Z); (ex_metric [] MTs, [0]%Z)] 1 None None [].
+Definition ex_cC : chunk :=   (* one metric *)
+  mkChunk [(ex_metric [122]%N MInt32, [7; 8; 9]%Z)] 3 None None [].
+
+Lemma csv_example :
+  (* hypotheses of C18_write / C18_roundtrip / C18_roundtrip_reread hold for [cA; cB] *)
+  Forall (fun c' => nmetrics c' = 2%nat) [ex_cA; ex_cB] /\
+  Forall (fun c' => has_date c' = false) [ex_cA; ex_cB] /\
+  record_ok (field_names ex_cA) = true /\
+  Forall (Forall (fun z => in_i64 z = true)) (int_rows [ex_cA; ex_cB]) /\
+  Forall (fun k => key_ok k = true) (field_names ex_cA) /\
+  Forall (fun d => small (enc_doc d)) (table_docs (field_names ex_cA) (int_rows [ex_cA; ex_cB])) /\
+  (* and the statements are not empty: three rows, the text quotes both keys *)
+  int_rows [ex_cA; ex_cB] = [[1; 2 ^ 63 - 1]; [-2; - 2 ^ 63]; [1; 0]]%Z /\
+  firstn 14 (fst (write_csv [ex_cA; ex_cB])) = [34; 97; 44; 98; 34; 44; 34; 113; 34; 34; 10; 34; 10; 49]%N /\
+  (* hypotheses of C18_write_error and C18_dump: a count change after two chunks, then back *)
+  nmetrics ex_cC <> 2%nat /\ Forall (fun c => nmetrics c <> O) [ex_cA; ex_cB; ex_cC; ex_cA] /\
+  snd (write_csv [ex_cA; ex_cB; ex_cC; ex_cA]) = true /\
+  group_by_count [ex_cA; ex_cB; ex_cC; ex_cA] = [[ex_cA; ex_cB]; [ex_cC]; [ex_cA]] /\
+  length (dump_csv [ex_cA; ex_cB; ex_cC; ex_cA]) = 3%nat.
+Proof.
+  split; [repeat constructor|]. split; [repeat constructor|]. split; [vm_compute; reflexivity|].
+  split; [repeat constructor|]. split; [repeat constructor|].
+  split; [repeat constructor; unfold small; vm_compute; reflexivity|].
+  split; [vm_compute; reflexivity|]. split; [vm_compute; reflexivity|].
+  split; [vm_compute; discriminate|]. split; [repeat constructor; vm_compute; discriminate|].
+  split; [vm_compute; reflexivity|]. split; [vm_compute; reflexivity|]. vm_compute; reflexivity.
+Qed.
